@@ -185,6 +185,8 @@ def generate(rng, tier, index):
                 options += [{"kind": "source_open", "k": rng.randint(0, 5), "errno": rng.choice(["ENOENT", "EACCES"])}]
             if src == "gz":
                 options += [{"kind": "torn_gz", "keep": rng.random()}] * 2
+                options += [{"kind": "source_eio", "n": rng.randint(0, 2 * n_lines),
+                             "errno": rng.choice(["EIO", "ESTALE", "EINTR"])}] * 2
             if src in ("url", "urls"):
                 options += [{"kind": "url_reset", "fetch": rng.randint(0, 3), "after": rng.randint(1, 40 * max(1, n_lines))}]
             if src == "endpoint":
